@@ -459,6 +459,17 @@ func Structured(thorough bool) []Lazy {
 			add("jsonpatch", fmt.Sprintf("jsonpatch/2/%d/%d", fi, i), []byte("["+f+","+s+"]"))
 		}
 	}
+	// every prefix of texts that use every escape form, surrogate pairs, unpaired surrogates and every number form: input cut off at
+	// any byte (a scanner that looks ahead must not look past the end)
+	for ti, text := range []string{
+		`{"note":"\ud83d\ude00 \u00e9\u2028 \n\t\"q\" \\ \/ x","n":[1.5e10,-0,0.1E-2,true,false,null],"o":{"k":"v","":[]}}`,
+		`["\ud83d","\udc00x","\ud83d\u0041","\uD83D\uDE00"]`,
+		`{"\u0061\ud83d\ude00":"\u000b\u001f","b":-1e-7}`,
+	} {
+		for cut := 0; cut <= len(text); cut++ {
+			add("bytes", fmt.Sprintf("prefix/%d/%d", ti, cut), []byte(text[:cut]))
+		}
+	}
 	// malformed operations
 	for i, s := range []string{`[null]`, `[[]]`, `[5]`, `[{"op":null,"path":"/m"}]`, `[{"op":"add","path":null,"value":1}]`, `[{"op":"add","path":5,"value":1}]`, `[{"op":"move","path":"/m","from":null}]`,
 		`[{"op":"move","path":"/m","from":5}]`, `[{"op":"copy","path":"/m"}]`, `[{"op":"add"}]`, `[{}]`, `[{"op":"frob","path":"/m"}]`, `{"op":"add"}`, `null`, `"x"`, `[{"op":["add"],"path":"/m"}]`, `[{"op":"test","path":"/m","value":1e400}]`} {
